@@ -7,6 +7,7 @@ import Emerge.Driver.Emitted
 import Emerge.Driver.Cli
 import Emerge.Driver.Lalr
 import Emerge.Driver.Reader
+import Emerge.Driver.Typed
 /-
   Model driver: one case per input line, one result per output line (same protocol as the Go harness).
 -/
@@ -37,6 +38,7 @@ def dispatch (cmd : String) (fields : List String) : String :=
   | "renfafixed" => cmdReNFAFixed fields
   | "reast" => cmdReAST fields
   | "reader" => cmdReader fields
+  | "ebnftyped" => cmdEbnfTypedModel fields
   | "readernext" => cmdReaderNext fields
   | _ => "UNKNOWN-COMMAND"
 
